@@ -20,6 +20,7 @@ import (
 	"net"
 	"net/http"
 	"os"
+	"path/filepath"
 	"runtime/debug"
 	"strings"
 	"time"
@@ -500,10 +501,158 @@ func c16connect(addr string, raw []byte) *rig.Resp {
 	return &rig.Resp{Status: resp.StatusCode}
 }
 
+// ---- coverage-guided fuzzing (thorough tier) ------------------------------------------------------
+
+const c16fuzzSrc = `package fuzzscratch
+
+import (
+	"bufio"
+	"encoding/json"
+	"net/http"
+	"strings"
+	"testing"
+	"time"
+
+	"reservoir/cache"
+	"reservoir/proxy/headers"
+	"reservoir/utils/bytesize"
+	"reservoir/utils/duration"
+	"reservoir/utils/phc"
+)
+
+func FuzzHeaders(f *testing.F) {
+	f.Add("bytes=0-1", "max-age=60", "Wed, 21 Oct 2015 07:28:00 GMT", "\"x\"")
+	f.Add("bytes=-5", "no-store, MAX-AGE=\"0\"", "0", "W/\"x\"")
+	f.Fuzz(func(t *testing.T, rng, cc, date, tag string) {
+		h := http.Header{"Range": {rng}, "Cache-Control": {cc, cc}, "Expires": {date}, "If-Range": {tag}, "If-Modified-Since": {date}, "If-None-Match": {tag}}
+		hd := headers.ParseHeaderDirective(h)
+		hd.ShouldCache(false)
+		hd.ShouldCache(true)
+		hd.GetExpiresOrDefault(false, time.Minute)
+		if hd.Range.IsPresent() {
+			for _, size := range []int64{0, 1, 1000, 1 << 40} {
+				hd.Range.Value().SliceSize(size)
+			}
+			_ = hd.Range.Value().String()
+		}
+		hd.StripRegularConditionals(h)
+	})
+}
+
+func FuzzCacheKey(f *testing.F) {
+	f.Add("GET", "http://h/a/../b?x=1", "h")
+	f.Add("HEAD", "http://H/%2F|?|", "H:80")
+	f.Fuzz(func(t *testing.T, method, target, host string) {
+		if strings.ContainsAny(method+target+host, "\r\n") {
+			return
+		}
+		req, err := http.ReadRequest(bufio.NewReader(strings.NewReader(method + " " + target + " HTTP/1.1\r\nHost: " + host + "\r\n\r\n")))
+		if err != nil {
+			return
+		}
+		k := cache.MakeFromRequest(req)
+		_ = k.String()
+		k.Bytes()
+	})
+}
+
+func FuzzByteSize(f *testing.F) {
+	f.Add("10G")
+	f.Add("99999999999999999999T")
+	f.Fuzz(func(t *testing.T, s string) {
+		if v, err := bytesize.Parse(s); err == nil {
+			back, err := bytesize.Parse(v.String())
+			if err != nil || back != v {
+				t.Fatalf("Parse(String(%d)) = %d, %v", int64(v), int64(back), err)
+			}
+		}
+		var v bytesize.ByteSize
+		js, _ := json.Marshal(s)
+		json.Unmarshal(js, &v)
+		var d duration.Duration
+		json.Unmarshal(js, &d)
+	})
+}
+
+func FuzzPHC(f *testing.F) {
+	f.Add("$argon2id$v=19$m=64,t=1,p=1,l=32$MDEyMzQ1Njc4OWFiY2RlZg$MjZP1+1U9JUbDWvDvtLyEsZiNXOKEUxfi6O2oe46uxA")
+	f.Add("$argon2id$v=19$m=8,t=1,p=4$QUFBQUFBQUFBQUFBQUFBQQ$AAAA")
+	f.Fuzz(func(t *testing.T, s string) {
+		p, err := phc.ParsePHC(s)
+		if err != nil {
+			return
+		}
+		if _, err := phc.ParsePHC(p.String()); err != nil {
+			t.Fatalf("String() of a parsed PHC does not parse: %v", err)
+		}
+		var q phc.PHC
+		q.Scan(s)
+	})
+}
+`
+
+func c16RunFuzz(b core.Batch, r *core.Recorder) {
+	repo := os.Getenv("VERIF_REPO_EFFECTIVE")
+	if repo == "" {
+		repo = "/repo"
+	}
+	wd, _ := os.Getwd()
+	dir := filepath.Join(wd, "fuzzscratch")
+	os.MkdirAll(dir, 0o755)
+	os.WriteFile(filepath.Join(dir, "fuzz_test.go"), []byte(c16fuzzSrc), 0o644)
+	os.WriteFile(filepath.Join(dir, "go.mod"), []byte("module fuzzscratch\n\ngo 1.26\n\nrequire reservoir v0.0.0\n\nreplace reservoir => "+repo+"\n"), 0o644)
+	sum, _ := os.ReadFile(filepath.Join(repo, "go.sum"))
+	os.WriteFile(filepath.Join(dir, "go.sum"), sum, 0o644)
+	run := func(args ...string) (string, error) {
+		cmd := execCommand("go", args...)
+		cmd.Dir = dir
+		cmd.Env = append(os.Environ(), "GOFLAGS=-mod=mod", "GOPROXY=off", "GOTOOLCHAIN=auto", "HOME="+os.Getenv("HOME"))
+		out, err := cmd.CombinedOutput()
+		return string(out), err
+	}
+	if out, err := run("test", "-c", "-o", "fuzz.test", "."); err != nil {
+		r.Inconclusive("cannot build the fuzz test binary: " + core.Trunc(out, 400))
+		return
+	}
+	execs := b.Int("execs", 300000)
+	for _, target := range []string{"FuzzHeaders", "FuzzCacheKey", "FuzzByteSize", "FuzzPHC"} {
+		if !r.Case(target, execs) {
+			continue
+		}
+		cmd := execCommand(filepath.Join(dir, "fuzz.test"), "-test.run=^$", "-test.fuzz=^"+target+"$", fmt.Sprintf("-test.fuzztime=%dx", execs), "-test.fuzzcachedir="+filepath.Join(dir, "cache"), "-test.parallel=8")
+		cmd.Dir = dir
+		outB, err := cmd.CombinedOutput()
+		out := string(outB)
+		r.Eval(int64(execs))
+		r.Count("fuzz_execs", int64(execs))
+		r.Nontrivial("fuzz", target)
+		// "new interesting" inputs found by coverage guidance
+		if i := strings.LastIndex(out, "new interesting: "); i >= 0 {
+			var n int64
+			fmt.Sscanf(out[i:], "new interesting: %d", &n)
+			r.Count("fuzz_new_interesting_inputs", n)
+		}
+		if err != nil {
+			crasher := ""
+			if files, _ := filepath.Glob(filepath.Join(dir, "testdata", "fuzz", target, "*")); len(files) > 0 {
+				cb, _ := os.ReadFile(files[0])
+				crasher = string(cb)
+			}
+			frame := core.FirstReservoirFrame(out)
+			r.Violation("C16", "C16:fuzz:"+target+":"+frame, fmt.Sprintf("coverage-guided fuzzing of %s found a failing input: %s", target, core.Trunc(crasher, 300)), map[string]any{"id": target, "crasher": crasher}, core.Trunc(out, 4000))
+		}
+	}
+	r.Sample(map[string]any{"part": "fuzz", "targets": []string{"FuzzHeaders", "FuzzCacheKey", "FuzzByteSize", "FuzzPHC"}, "execs_per_target": execs, "engine": "Go native fuzzing (coverage-guided), test binary built in a scratch module against the checked tree"})
+	os.RemoveAll(dir)
+}
+
 func c16Run(b core.Batch, r *core.Recorder) {
-	if b.Str("part", "func") == "func" {
+	switch b.Str("part", "func") {
+	case "func":
 		c16RunFunc(b, r)
-	} else {
+	case "fuzz":
+		c16RunFuzz(b, r)
+	default:
 		c16RunWire(b, r)
 	}
 }
@@ -520,6 +669,9 @@ func c16Plan(tier string, seed int64) []core.Batch {
 	for p := 0; p < 2; p++ {
 		bs = append(bs, core.Batch{Name: fmt.Sprintf("wire-%d", p), TimeoutS: 2400, Args: map[string]any{"part": "wire", "n": nw}})
 	}
+	if tier == "thorough" {
+		bs = append(bs, core.Batch{Name: "fuzz", TimeoutS: 2400, Args: map[string]any{"part": "fuzz", "execs": 400000}})
+	}
 	return bs
 }
 
@@ -529,7 +681,7 @@ func init() {
 		Level: "exploration",
 		Rule: "entry points under recover, seeded mutation (byte flips, run deletion/duplication, special-token insertion, truncation, repetition; 0-3 rounds) of grammar seeds: header sets over Range/Cache-Control/Expires/If-Range/conditionals through ParseHeaderDirective + ShouldCache + GetExpiresOrDefault + SliceSize + StripRegularConditionals; request targets through http.ReadRequest + MakeFromRequest; size and duration strings (Parse/String/JSON); PHC strings (ParsePHC/Scan/JSON, VerifyArgon2id only for m<=1 MiB, t<=2); CONNECT targets through GetCertForHost; mutated configuration files through LoadOrDefault and as update documents. " +
 			"wire: generated request bytes (methods, 10 path forms, 6 target forms, mutated Range/If-Range/Cache-Control/conditional headers, oversized headers, Host variants) plain and inside a tunnel, CONNECT with 10 odd targets, against a raw origin answering with one of 28 response heads (duplicate/negative/overflowing Content-Length, broken chunking, odd status lines, binary and oversized headers, 304/206/416 oddities, truncated body), both backends, both retry settings. Oracles: no panic (recover / server error log / process abort); every well-formed request gets a well-formed response. Non-trivial = distinct input.",
-		Assumptions: []string{"argon2 parameter sets that would exhaust memory are parsed but not verified (resource exhaustion is not addressed)", "for requests Go's HTTP server itself rejects, and for odd CONNECT targets, only the absence of a panic is demanded", "Go's native coverage-guided fuzzer is not used (seeded mutation instead): it needs a test binary built in a scratch module, which the brief's disk constraints discourage; stated as a limit"},
+		Assumptions: []string{"argon2 parameter sets that would exhaust memory are parsed but not verified (resource exhaustion is not addressed)", "for requests Go's HTTP server itself rejects, and for odd CONNECT targets, only the absence of a panic is demanded", "Go's native coverage-guided fuzzer runs in the thorough tier only (4 targets, test binary built in a scratch module that is removed afterwards); the quick tier uses seeded mutation"},
 		Plan:        c16Plan,
 		Run:         c16Run,
 		Parallel:    6,
